@@ -256,6 +256,9 @@ DIRECTED = {
                        'deviation 10, started at 0',
                        [['LS-BFGS', 'estimate'], ['LS-BFGS', 'quick_estimate'], ['simple_bounds', 'estimate'], ['scipy', 'estimate'],
                         ['LS-newton', 'estimate'], ['TR-newton', 'estimate'], ['TR-BFGS', 'estimate']]),
+    'hessian_fallback': ('binary logit, 300 rows; FAULT INJECTION: the analytical Hessian of the final evaluation of estimate() is '
+                         'replaced by NaN, the documented reaction is the finite-difference Hessian',
+                         [['simple_bounds', 'estimate'], ['TR-newton', 'estimate'], ['scipy', 'estimate']]),
 }
 
 
@@ -275,6 +278,13 @@ def directed_problem(name):
         ch = np.where(rng.random(N) < 1 / (1 + np.exp(-0.1 * (x1 - x2))), 1, 2)
         par = {'B': {'status': 0, 'value': 0.0, 'start': 0.0, 'lb': None, 'ub': None, 'typ': 0.1}}
         form = 'handwritten'
+    elif name == 'hessian_fallback':
+        rng = np.random.default_rng(0)
+        N = 300
+        x1, x2 = np.round(rng.normal(0, 1, N), 4), np.round(rng.normal(0, 1, N), 4)
+        ch = np.where(rng.random(N) < 1 / (1 + np.exp(0.5 * (x1 - x2))), 1, 2)
+        par = {'B': {'status': 0, 'value': 0.0, 'start': 0.0, 'lb': None, 'ub': None, 'typ': 1.0}}
+        form = 'library'
     else:  # pragma: no cover
         raise ValueError(name)
     spec = {'family': 'logit', 'utilities': {'1': [['B', 'x_1', 1.0]], '2': [['B', 'x_2', 1.0]]}, 'avail': {'1': None, '2': None},
